@@ -30,47 +30,56 @@ private abbrev emptyStack : Except IErr St := .error (.bibtex "pop from empty st
 
 /-! ## 1. The built-in functions -/
 
+/-- **Short stacks.**  Every built-in pops its operands first (`arity b` raw values, in Python's
+order) and only then looks at them: on a stack with fewer values it raises
+`BibTeXError('pop from empty stack')` — whatever the types of the values that are there. -/
+theorem C03_builtin_short_stack (f : Nat) (s : St) (b : Builtin) (vs : List Val) (h : vs.length < arity b) :
+    runBuiltin (f+1) b { s with stack := vs } = emptyStack := by
+  cases b <;> rcases vs with _ | ⟨v, _ | ⟨w, _ | ⟨u, r⟩⟩⟩ <;>
+    first | rfl | (exfalso; simp [arity] at h; done) | (exfalso; simp [arity] at h; omega)
+
+theorem C03_builtin_short_stack_nonvacuous :
+    [Val.str [], Val.fn []].length < arity .substring ∧ [Val.ref []].length < arity .minus := by decide
+
 /-! ### arithmetic and comparison -/
 
 /-- `a b +` ↦ `a + b`; fewer than two operands: `BibTeXError`; a non-integer operand is a Python
 `TypeError` or (two strings) a concatenation — never an integer default. -/
 theorem C03_builtin_plus (f : Nat) (s : St) (a b : Int) (r : List Val) :
     runBuiltin (f+1) .plus { s with stack := .int b :: .int a :: r } = .ok { s with stack := .int (a + b) :: r } ∧
-    runBuiltin (f+1) .plus { s with stack := [] } = emptyStack ∧
-    (∀ v, runBuiltin (f+1) .plus { s with stack := [v] } = emptyStack) ∧
+    (∀ vs : List Val, vs.length < 2 → runBuiltin (f+1) .plus { s with stack := vs } = emptyStack) ∧
     (∀ v, isStr v = true → ∃ w, runBuiltin (f+1) .plus { s with stack := v :: .int a :: r } = .error (.internal w)) ∧
     (∀ v, isStr v = true → ∃ w, runBuiltin (f+1) .plus { s with stack := .int b :: v :: r } = .error (.internal w)) ∧
     (∀ v w, isExec v = true → ∃ e, runBuiltin (f+1) .plus { s with stack := v :: w :: r } = .error (.internal e)) ∧
     (∀ v w, isExec v = true → ∃ e, runBuiltin (f+1) .plus { s with stack := w :: v :: r } = .error (.internal e)) := by
-  refine ⟨rfl, rfl, fun _ => rfl, ?_, ?_, ?_, ?_⟩
+  refine ⟨rfl, fun vs h => C03_builtin_short_stack f s .plus vs h, ?_, ?_, ?_, ?_⟩
   · ill1
   · ill1
   · ill2
   · ill2
 
-/-- `a b -` ↦ `a − b` (in particular negative results are kept) -/
+/-- `a b -` ↦ `a − b` (in particular negative results are kept); with two operands on the stack of
+which one is not an integer: a Python `TypeError` -/
 theorem C03_builtin_minus (f : Nat) (s : St) (a b : Int) (r : List Val) :
     runBuiltin (f+1) .minus { s with stack := .int b :: .int a :: r } = .ok { s with stack := .int (a - b) :: r } ∧
-    runBuiltin (f+1) .minus { s with stack := [] } = emptyStack ∧
-    runBuiltin (f+1) .minus { s with stack := [.int b] } = emptyStack ∧
-    (∀ v, isInt v = false → ∃ w, runBuiltin (f+1) .minus { s with stack := v :: r } = .error (.internal w)) ∧
-    (∀ v, isInt v = false → ∃ w, runBuiltin (f+1) .minus { s with stack := .int b :: v :: r } = .error (.internal w)) := by
-  refine ⟨rfl, rfl, rfl, ?_, ?_⟩
-  · ill1
-  · ill1
+    (∀ vs : List Val, vs.length < 2 → runBuiltin (f+1) .minus { s with stack := vs } = emptyStack) ∧
+    (∀ v w, isInt v = false → ∃ e, runBuiltin (f+1) .minus { s with stack := v :: w :: r } = .error (.internal e)) ∧
+    (∀ v w, isInt v = false → ∃ e, runBuiltin (f+1) .minus { s with stack := w :: v :: r } = .error (.internal e)) := by
+  refine ⟨rfl, fun vs h => C03_builtin_short_stack f s .minus vs h, ?_, ?_⟩
+  · ill2
+  · ill2
 
 /-- `x y *` ↦ the concatenation `x ++ y`; a missing field counts as the empty string -/
 theorem C03_builtin_concat (f : Nat) (s : St) (vx vy : Val) (x y : Str) (r : List Val)
     (hx : valToStr vx = some x) (hy : valToStr vy = some y) :
     runBuiltin (f+1) .mul { s with stack := vy :: vx :: r } = .ok { s with stack := .str (x ++ y) :: r } ∧
-    runBuiltin (f+1) .mul { s with stack := [] } = emptyStack ∧
-    runBuiltin (f+1) .mul { s with stack := [vy] } = emptyStack ∧
+    (∀ vs : List Val, vs.length < 2 → runBuiltin (f+1) .mul { s with stack := vs } = emptyStack) ∧
     (∀ v, isExec v = true → ∃ e, runBuiltin (f+1) .mul { s with stack := v :: vx :: r } = .error (.internal e)) ∧
     (∀ v, isExec v = true → ∃ e, runBuiltin (f+1) .mul { s with stack := vy :: v :: r } = .error (.internal e)) ∧
     (∀ n, ∃ e, runBuiltin (f+1) .mul { s with stack := .int n :: vx :: r } = .error (.internal e)) ∧
     (∀ n, ∃ e, runBuiltin (f+1) .mul { s with stack := vy :: .int n :: r } = .error (.internal e)) := by
   rcases valToStr_cases hx with rfl | ⟨mx, rfl, rfl⟩ <;> rcases valToStr_cases hy with rfl | ⟨my, rfl, rfl⟩ <;>
-    refine ⟨rfl, rfl, rfl, ?_, ?_, fun _ => ⟨_, rfl⟩, fun _ => ⟨_, rfl⟩⟩ <;>
+    refine ⟨rfl, fun vs h => C03_builtin_short_stack f s .mul vs h, ?_, ?_, fun _ => ⟨_, rfl⟩, fun _ => ⟨_, rfl⟩⟩ <;>
     ill1
 
 /-- the pinned code implements `+` and `*` by the same Python operator -/
@@ -81,14 +90,13 @@ theorem C03_builtin_gt_lt (f : Nat) (s : St) (a b : Int) (r : List Val) :
     runBuiltin (f+1) .gt { s with stack := .int b :: .int a :: r } = .ok { s with stack := .int (if a > b then 1 else 0) :: r } ∧
     runBuiltin (f+1) .lt { s with stack := .int b :: .int a :: r } = .ok { s with stack := .int (if a < b then 1 else 0) :: r } ∧
     (∀ o, o = Builtin.gt ∨ o = Builtin.lt →
-      runBuiltin (f+1) o { s with stack := [] } = emptyStack ∧
-      (∀ v, runBuiltin (f+1) o { s with stack := [v] } = emptyStack) ∧
+      (∀ vs : List Val, vs.length < 2 → runBuiltin (f+1) o { s with stack := vs } = emptyStack) ∧
       (∀ v, isStr v = true → ∃ w, runBuiltin (f+1) o { s with stack := v :: .int a :: r } = .error (.internal w)) ∧
       (∀ v, isStr v = true → ∃ w, runBuiltin (f+1) o { s with stack := .int b :: v :: r } = .error (.internal w)) ∧
       (∀ v w, isExec v = true → ∃ e, runBuiltin (f+1) o { s with stack := v :: w :: r } = .error (.internal e)) ∧
       (∀ v w, isExec v = true → ∃ e, runBuiltin (f+1) o { s with stack := w :: v :: r } = .error (.internal e))) := by
   refine ⟨rfl, rfl, ?_⟩
-  rintro o (rfl | rfl) <;> refine ⟨rfl, fun _ => rfl, ?_, ?_, ?_, ?_⟩
+  rintro o (rfl | rfl) <;> refine ⟨fun vs h => C03_builtin_short_stack f s _ vs h, ?_, ?_, ?_, ?_⟩
   all_goals first | ill2 | ill1
 
 /-- on strings `<` and `>` compare by code-point lexicographic order (`C03_strLt_spec`) -/
@@ -99,9 +107,11 @@ theorem C03_builtin_gt_lt_str (f : Nat) (s : St) (vx vy : Val) (x y : Str) (r : 
   rcases valToStr_cases hx with rfl | ⟨mx, rfl, rfl⟩ <;> rcases valToStr_cases hy with rfl | ⟨my, rfl, rfl⟩ <;>
     exact ⟨rfl, rfl⟩
 
-/-- `a b =` ↦ 1 if equal else 0, for two integers or two strings (a missing field equals the
-empty string); an integer never equals a string; comparing function values is outside the
-domain. -/
+/-- `a b =` ↦ 1 if equal else 0: two integers or two strings by value (a missing field equals
+the empty string); an integer never equals a string.  Python's `==` accepts any two values, and
+so does the model (`valEq`): two function values are equal when their bodies are (structurally)
+equal, a function / variable object never equals an integer or a string; comparing two variable
+objects follows their `__eq__` (`objEq`; two entry variables of one class: `AttributeError`). -/
 theorem C03_builtin_eq (f : Nat) (s : St) (r : List Val) :
     (∀ a b : Int, runBuiltin (f+1) .eq { s with stack := .int b :: .int a :: r } =
         .ok { s with stack := .int (if a = b then 1 else 0) :: r }) ∧
@@ -110,26 +120,72 @@ theorem C03_builtin_eq (f : Nat) (s : St) (r : List Val) :
     (∀ (a : Int) v, isStr v = true →
         runBuiltin (f+1) .eq { s with stack := v :: .int a :: r } = .ok { s with stack := .int 0 :: r } ∧
         runBuiltin (f+1) .eq { s with stack := .int a :: v :: r } = .ok { s with stack := .int 0 :: r }) ∧
-    runBuiltin (f+1) .eq { s with stack := [] } = emptyStack ∧
-    (∀ v, runBuiltin (f+1) .eq { s with stack := [v] } = emptyStack) ∧
-    (∀ v w, isExec v = true → ∃ e, runBuiltin (f+1) .eq { s with stack := v :: w :: r } = .error (.internal e)) ∧
-    (∀ v w, isExec v = true → ∃ e, runBuiltin (f+1) .eq { s with stack := w :: v :: r } = .error (.internal e)) := by
-  refine ⟨?_, ?_, ?_, rfl, fun _ => rfl, ?_, ?_⟩
+    (∀ vs : List Val, vs.length < 2 → runBuiltin (f+1) .eq { s with stack := vs } = emptyStack) ∧
+    (∀ x y : List BTok, runBuiltin (f+1) .eq { s with stack := .fn y :: .fn x :: r } =
+        .ok { s with stack := .int (if toksEq x y then 1 else 0) :: r } ∧ (toksEq x y = true ↔ x = y)) ∧
+    (∀ v w, isExec v = true → isExec w = false →
+        runBuiltin (f+1) .eq { s with stack := v :: w :: r } = .ok { s with stack := .int 0 :: r } ∧
+        runBuiltin (f+1) .eq { s with stack := w :: v :: r } = .ok { s with stack := .int 0 :: r }) ∧
+    (∀ a1 a2, runBuiltin (f+1) .eq { s with stack := a1 :: a2 :: r } =
+        match valEq s.vars a2 a1 with
+        | some res => .ok { s with stack := .int (if res then 1 else 0) :: r }
+        | none => .error (.internal "AttributeError: _value")) := by
+  have gen : ∀ a1 a2, runBuiltin (f+1) .eq { s with stack := a1 :: a2 :: r } =
+        match valEq s.vars a2 a1 with
+        | some res => .ok { s with stack := .int (if res then 1 else 0) :: r }
+        | none => .error (.internal "AttributeError: _value") := by
+    intro a1 a2
+    show (match valEq s.vars a2 a1 with | some res => _ | none => _) = _
+    cases valEq s.vars a2 a1 <;> rfl
+  have ofEq : ∀ a1 a2 (p : Prop) [Decidable p] (b : Bool), valEq s.vars a2 a1 = some b → (b = true ↔ p) →
+      runBuiltin (f+1) .eq { s with stack := a1 :: a2 :: r } = .ok { s with stack := .int (if p then 1 else 0) :: r } := by
+    intro a1 a2 p _ b hv hb
+    rw [gen, hv]
+    by_cases hp : p
+    · rw [if_pos hp, hb.2 hp]; rfl
+    · have : b = false := by cases b; rfl; exact absurd (hb.1 rfl) hp
+      rw [if_neg hp, this]; rfl
+  refine ⟨?_, ?_, ?_, fun vs h => C03_builtin_short_stack f s .eq vs h, ?_, ?_, gen⟩
   · intro a b
-    show Except.ok { s with stack := .int (if decide (a = b) = true then 1 else 0) :: r } = _
-    by_cases h : a = b <;> simp [h]
+    exact ofEq _ _ (a = b) (a == b) rfl (by simp)
   · intro vx vy x y hx hy
     rcases valToStr_cases hx with rfl | ⟨mx, rfl, rfl⟩ <;> rcases valToStr_cases hy with rfl | ⟨my, rfl, rfl⟩
-    all_goals
-      show Except.ok { s with stack := .int (if decide (_ = _) = true then 1 else 0) :: r } = _
-    · by_cases h : x = y <;> simp [h]
-    · by_cases h : x = [] <;> simp [h]
-    · by_cases h : [] = y <;> simp [h]
-    · rfl
+    · exact ofEq _ _ (x = y) (x == y) rfl (by simp)
+    · exact ofEq _ _ (x = []) (x == []) rfl (by simp)
+    · exact ofEq _ _ ([] = y) (([] : Str) == y) rfl (by simp)
+    · exact ofEq _ _ (([] : Str) = []) (([] : Str) == []) rfl (by simp)
   · intro a v hv
     cases v <;> first | exact ⟨rfl, rfl⟩ | cases hv
-  · ill2
-  · ill2
+  · intro x y
+    exact ⟨ofEq (.fn y) (.fn x) (toksEq x y = true) (toksEq x y) rfl Iff.rfl, toksEq_iff x y⟩
+  · intro v w hv hw
+    have h1 : valEq s.vars w v = some false := by
+      cases v with
+      | fn b => cases w <;> first | rfl | cases hw
+      | ref n => cases w <;> first | rfl | cases hw
+      | _ => cases hv
+    have h2 : valEq s.vars v w = some false := by
+      cases v with
+      | fn b => cases w <;> first | rfl | cases hw
+      | ref n => cases w <;> first | rfl | cases hw
+      | _ => cases hv
+    constructor
+    · rw [gen, h1]; rfl
+    · rw [gen, h2]; rfl
+
+/-- `objEq`, Python's `==` on two variable objects: global variables by value, functions by their
+bodies, a field / `crossref` / built-in only with itself, two entry variables of one class raise -/
+theorem C03_builtin_eq_objects (same : Bool) :
+    (∀ a b : Int, objEq same (.gint a) (.gint b) = some (a == b)) ∧
+    (∀ a b, objEq same (.gstr a) (.gstr b) = some (valToStr a == valToStr b)) ∧
+    (∀ x y, objEq same (.func x) (.func y) = some (toksEq x y)) ∧
+    (∀ n m, objEq same (.field n) (.field m) = some same) ∧ objEq same .crossref .crossref = some same ∧
+    (∀ b c, objEq same (.builtin b) (.builtin c) = some same) ∧
+    (∀ n m, objEq same (.eint n) (.eint m) = none ∧ objEq same (.estr n) (.estr m) = none) ∧
+    (∀ n m a, objEq same (.eint n) (.estr m) = some false ∧ objEq same (.eint n) (.gint a) = some false ∧
+      objEq same (.field n) .crossref = some false) :=
+  ⟨fun _ _ => rfl, fun _ _ => rfl, fun _ _ => rfl, fun _ _ => rfl, rfl, fun _ _ => rfl, fun _ _ => ⟨rfl, rfl⟩,
+   fun _ _ _ => ⟨rfl, rfl, rfl⟩⟩
 
 /-! ### assignment -/
 
@@ -177,12 +233,11 @@ theorem C03_builtin_assign_entry_str (f : Nat) (s : St) (name en : Str) (v : Val
 /-- `:=` with too few operands, or whose top operand is not a quoted variable, or that names a
 function / field / built-in: an error, never an assignment -/
 theorem C03_builtin_assign_errors (f : Nat) (s : St) (r : List Val) :
-    runBuiltin (f+1) .assign { s with stack := [] } = emptyStack ∧
-    (∀ v, runBuiltin (f+1) .assign { s with stack := [v] } = emptyStack) ∧
+    (∀ vs : List Val, vs.length < 2 → runBuiltin (f+1) .assign { s with stack := vs } = emptyStack) ∧
     (∀ v w, (∀ n, v ≠ .ref n) → ∃ e, runBuiltin (f+1) .assign { s with stack := v :: w :: r } = .error (.internal e)) ∧
     (∀ name w o, s.vars.getItem name = some o → (∀ x, o ≠ .gint x) → (∀ x, o ≠ .gstr x) → (∀ x, o ≠ .eint x) →
         (∀ x, o ≠ .estr x) → ∃ e, runBuiltin (f+1) .assign { s with stack := .ref name :: w :: r } = .error (.internal e)) := by
-  refine ⟨rfl, fun _ => rfl, ?_, ?_⟩
+  refine ⟨fun vs h => C03_builtin_short_stack f s .assign vs h, ?_, ?_⟩
   · intro v w h
     cases v with
     | ref n => exact absurd rfl (h n)
@@ -207,17 +262,19 @@ theorem C03_builtin_stack_ops (f : Nat) (s : St) (v w : Val) (r : List Val) :
     runBuiltin (f+1) .quote s = .ok { s with stack := .str ['"'] :: s.stack } ∧
     runBuiltin (f+1) .duplicate { s with stack := [] } = emptyStack ∧
     runBuiltin (f+1) .pop { s with stack := [] } = emptyStack ∧
-    runBuiltin (f+1) .swap { s with stack := [] } = emptyStack ∧
-    runBuiltin (f+1) .swap { s with stack := [v] } = emptyStack :=
-  ⟨rfl, rfl, rfl, rfl, rfl, rfl, rfl, rfl, rfl⟩
+    (∀ vs : List Val, vs.length < 2 → runBuiltin (f+1) .swap { s with stack := vs } = emptyStack) :=
+  ⟨rfl, rfl, rfl, rfl, rfl, rfl, rfl, fun vs h => C03_builtin_short_stack f s .swap vs h⟩
 
 /-! ### tests -/
 
-/-- `empty$`: 1 if the string is missing, empty or consists of white space only, else 0 -/
+/-- `empty$`: 1 if the string is missing, empty or consists of white space only, else 0.
+Ill-typed: the integer 0 is falsy in Python and gives 1; every other non-string is an
+`AttributeError`. -/
 theorem C03_builtin_empty (f : Nat) (s : St) (v : Val) (x : Str) (r : List Val) (hx : valToStr v = some x) :
     runBuiltin (f+1) .empty { s with stack := v :: r } = .ok { s with stack := .int (if Blank x then 1 else 0) :: r } ∧
     runBuiltin (f+1) .empty { s with stack := [] } = emptyStack ∧
-    (∀ v, isStr v = false → ∃ e, runBuiltin (f+1) .empty { s with stack := v :: r } = .error (.internal e)) := by
+    runBuiltin (f+1) .empty { s with stack := .int 0 :: r } = .ok { s with stack := .int 1 :: r } ∧
+    (∀ v, isStr v = false → v ≠ .int 0 → ∃ e, runBuiltin (f+1) .empty { s with stack := v :: r } = .error (.internal e)) := by
   have key : ∀ x : Str, (if x ≠ [] ∧ (!isBlank x) = true then (0 : Int) else 1) = if Blank x then 1 else 0 := by
     intro x
     have hb : isBlank x = true ↔ Blank x := by simp [isBlank, Blank]
@@ -229,13 +286,24 @@ theorem C03_builtin_empty (f : Nat) (s : St) (v : Val) (x : Str) (r : List Val) 
       · cases hh : isBlank x
         · rfl
         · exact absurd (hb.1 hh) h
-  refine ⟨?_, rfl, ?_⟩
+  refine ⟨?_, rfl, rfl, ?_⟩
   · rcases valToStr_cases hx with rfl | ⟨m, rfl, rfl⟩
     · show Except.ok { s with stack := .int (if x ≠ [] ∧ (!isBlank x) = true then 0 else 1) :: r } = _
       rw [key]
-    · show Except.ok { s with stack := .int (if ([] : Str) ≠ [] ∧ (!isBlank []) = true then 0 else 1) :: r } = _
-      rw [key]
-  · ill1
+    · show Except.ok { s with stack := .int 1 :: r } = _
+      have hb : Blank ([] : Str) := fun _ hc => nomatch hc
+      rw [if_pos hb]
+  · intro v hv h0
+    cases v with
+    | int n =>
+      match n, h0 with
+      | .ofNat 0, h0 => exact absurd rfl h0
+      | .ofNat (k+1), _ => exact ⟨_, rfl⟩
+      | .negSucc k, _ => exact ⟨_, rfl⟩
+    | str x => cases hv
+    | missing m => cases hv
+    | fn b => exact ⟨_, rfl⟩
+    | ref n => exact ⟨_, rfl⟩
 
 /-- `missing$`: 1 exactly for a missing field (which is otherwise an empty string), else 0 -/
 theorem C03_builtin_missing (f : Nat) (s : St) (r : List Val) :
@@ -250,42 +318,50 @@ theorem C03_builtin_missing (f : Nat) (s : St) (r : List Val) :
 
 /-! ### conversions -/
 
-/-- `chr.to.int$`: the code point of a one-character string; any other length is a `BibTeXError` -/
+/-- `chr.to.int$`: the code point of a one-character string; anything else — a string of another
+length, a missing field, and also an integer, a function or a variable (Python catches the
+`TypeError` of `ord`) — is a `BibTeXError` -/
 theorem C03_builtin_chr_to_int (f : Nat) (s : St) (r : List Val) :
     (∀ c, runBuiltin (f+1) .chrToInt { s with stack := .str [c] :: r } = .ok { s with stack := .int c.toNat :: r }) ∧
-    (∀ v x, valToStr v = some x → x.length ≠ 1 →
+    (∀ v, (∀ c, v ≠ .str [c]) →
       runBuiltin (f+1) .chrToInt { s with stack := v :: r } = .error (.bibtex "passed to chr.to.int$")) ∧
-    runBuiltin (f+1) .chrToInt { s with stack := [] } = emptyStack ∧
-    (∀ v, isStr v = false → ∃ e, runBuiltin (f+1) .chrToInt { s with stack := v :: r } = .error (.internal e)) := by
-  refine ⟨fun _ => rfl, ?_, rfl, ?_⟩
-  · intro v x hx hl
-    rcases valToStr_cases hx with rfl | ⟨m, rfl, rfl⟩
-    · match x, hl with
-      | [], _ => rfl
-      | [_], hl => exact absurd rfl hl
-      | _ :: _ :: _, _ => rfl
-    · rfl
-  · ill1
+    runBuiltin (f+1) .chrToInt { s with stack := [] } = emptyStack := by
+  refine ⟨fun _ => rfl, ?_, rfl⟩
+  intro v hv
+  cases v with
+  | str x =>
+    match x, hv with
+    | [], _ => rfl
+    | [c], hv => exact absurd rfl (hv c)
+    | _ :: _ :: _, _ => rfl
+  | _ => rfl
 
-/-- `int.to.chr$`: the one-character string with that code point for `0 ≤ n < 0x110000`,
-a `BibTeXError` outside this range -/
+/-- `int.to.chr$`: the one-character string with that code point for `0 ≤ n < 0x110000`; outside
+this range a `BibTeXError` (Python's `ValueError` of `chr`), except that an integer that does not
+fit a C `int` is an `OverflowError` (not a pybtex error) -/
 theorem C03_builtin_int_to_chr (f : Nat) (s : St) (n : Int) (r : List Val) :
     (0 ≤ n ∧ n < 0x110000 → runBuiltin (f+1) .intToChr { s with stack := .int n :: r } =
         .ok { s with stack := .str [Char.ofNat n.toNat] :: r }) ∧
-    (¬ (0 ≤ n ∧ n < 0x110000) → runBuiltin (f+1) .intToChr { s with stack := .int n :: r } =
-        .error (.bibtex "passed to int.to.chr$")) ∧
+    (¬ (0 ≤ n ∧ n < 0x110000) → -2147483648 ≤ n ∧ n ≤ 2147483647 →
+        runBuiltin (f+1) .intToChr { s with stack := .int n :: r } = .error (.bibtex "passed to int.to.chr$")) ∧
+    (n < -2147483648 ∨ 2147483647 < n →
+        ∃ e, runBuiltin (f+1) .intToChr { s with stack := .int n :: r } = .error (.internal e)) ∧
     runBuiltin (f+1) .intToChr { s with stack := [] } = emptyStack ∧
     (∀ v, isInt v = false → ∃ e, runBuiltin (f+1) .intToChr { s with stack := v :: r } = .error (.internal e)) := by
-  refine ⟨?_, ?_, rfl, ?_⟩
+  refine ⟨?_, ?_, ?_, rfl, ?_⟩
   · intro h
     show (if 0 ≤ n ∧ n < 0x110000 then _ else _) = _
     rw [if_pos h]; rfl
+  · intro h hc
+    show (if 0 ≤ n ∧ n < 0x110000 then _ else if n < -2147483648 ∨ 2147483647 < n then _ else _) = _
+    rw [if_neg h, if_neg (by omega)]
   · intro h
-    show (if 0 ≤ n ∧ n < 0x110000 then _ else _) = _
-    rw [if_neg h]
+    show ∃ e, (if 0 ≤ n ∧ n < 0x110000 then _ else if n < -2147483648 ∨ 2147483647 < n then _ else _) = _
+    rw [if_neg (by omega), if_pos h]; exact ⟨_, rfl⟩
   · ill1
 
-/-- `int.to.str$`: the decimal representation (`-` sign for negative numbers) -/
+/-- `int.to.str$`: the decimal representation (`-` sign for negative numbers); Python's `str()` of
+a function or variable object is its `repr`: not modelled (an `unmodelled:` internal error) -/
 theorem C03_builtin_int_to_str (f : Nat) (s : St) (n : Int) (r : List Val) :
     runBuiltin (f+1) .intToStr { s with stack := .int n :: r } = .ok { s with stack := .str (toString n).toList :: r } ∧
     runBuiltin (f+1) .intToStr { s with stack := [] } = emptyStack ∧
@@ -329,55 +405,68 @@ theorem C03_builtin_newline (f : Nat) (s : St) :
     runBuiltin (f+1) .newline s =
       .ok { s with lines := s.lines ++ [Wrap.wrapDefault s.buffer.flatten, ['\n']], buffer := [] } := rfl
 
-/-- `warning$` reports its operand as a warning; `top$` pops and prints one value; `stack$`
-pops and prints the whole stack, top first -/
+/-- `warning$` reports its operand as a warning (an integer as its decimal text; the `repr` of a
+function or variable object is not modelled); `top$` pops and prints one value of any type;
+`stack$` pops and prints the whole stack, top first (`shown`: the print-out of a function or
+variable object is the tag `<object>`) -/
 theorem C03_builtin_warning_top_stack (f : Nat) (s : St) (r : List Val) :
     (∀ v x, valToStr v = some x →
       runBuiltin (f+1) .warning { s with stack := v :: r } = .ok { s with stack := r, reports := s.reports ++ [.warning x] }) ∧
-    (∀ n, runBuiltin (f+1) .top { s with stack := .int n :: r } =
-      .ok { s with stack := r, printed := s.printed ++ [(toString n).toList] }) ∧
-    (∀ v x, valToStr v = some x →
-      runBuiltin (f+1) .top { s with stack := v :: r } = .ok { s with stack := r, printed := s.printed ++ [x] }) ∧
-    runBuiltin (f+1) .stack { s with stack := [] } = .ok { s with stack := [] } ∧
-    (∀ vs : List Val, (∀ v ∈ vs, isExec v = false) → runBuiltin (f+1) .stack { s with stack := vs } =
+    (∀ n, runBuiltin (f+1) .warning { s with stack := .int n :: r } =
+      .ok { s with stack := r, reports := s.reports ++ [.warning (toString n).toList] }) ∧
+    (∀ v, runBuiltin (f+1) .top { s with stack := v :: r } = .ok { s with stack := r, printed := s.printed ++ [shown v] }) ∧
+    (∀ vs : List Val, runBuiltin (f+1) .stack { s with stack := vs } =
       .ok { s with stack := [], printed := s.printed ++ vs.map shown }) ∧
     runBuiltin (f+1) .warning { s with stack := [] } = emptyStack ∧
     runBuiltin (f+1) .top { s with stack := [] } = emptyStack ∧
-    (∀ v, isStr v = false → ∃ e, runBuiltin (f+1) .warning { s with stack := v :: r } = .error (.internal e)) ∧
-    (∀ v, isExec v = true → ∃ e, runBuiltin (f+1) .top { s with stack := v :: r } = .error (.internal e)) ∧
-    (∀ v, isExec v = true → ∃ e, runBuiltin (f+1) .stack { s with stack := v :: r } = .error (.internal e)) := by
-  refine ⟨?_, fun _ => rfl, ?_, ?_, ?_, rfl, rfl, ?_, ?_, ?_⟩
+    (∀ v, isExec v = true → ∃ e, runBuiltin (f+1) .warning { s with stack := v :: r } = .error (.internal e)) := by
+  refine ⟨?_, fun _ => rfl, ?_, ?_, rfl, rfl, ?_⟩
   · intro v x hx; rcases valToStr_cases hx with rfl | ⟨m, rfl, rfl⟩ <;> rfl
-  · intro v x hx; rcases valToStr_cases hx with rfl | ⟨m, rfl, rfl⟩ <;> rfl
-  · show Except.ok { s with stack := [], printed := s.printed ++ [] } = _
-    rw [List.append_nil]
-  · intro vs hvs
-    show (match runBuiltin.printAll vs with | some l => _ | none => _) = _
-    rw [printAll_eq vs hvs]
-  · ill1
-  · ill1
+  · intro v
+    show Except.ok { s with stack := r, printed := s.printed ++ [printVal v] } = _
+    rw [printVal_eq_shown]
+  · intro vs
+    show Except.ok { s with stack := [], printed := s.printed ++ vs.map printVal } = _
+    rw [map_printVal]
   · ill1
 
 /-! ### string functions (delegating to the models of C12, C11) -/
 
 /-- `s start len substring$` is `bibtexSubstring` = the documented `Spec.substring` (C12), for all
-integer arguments -/
+integer arguments.  Ill-typed (three operands present): a non-integer `start` is a `TypeError`;
+`start = 0` gives the empty string whatever the other two operands are (Python returns before
+using them); otherwise a non-integer `len` or a non-string `s` is a `TypeError`. -/
 theorem C03_builtin_substring (f : Nat) (s : St) (v : Val) (x : Str) (start len : Int) (r : List Val)
     (hx : valToStr v = some x) :
     runBuiltin (f+1) .substring { s with stack := .int len :: .int start :: v :: r } =
       .ok { s with stack := .str (Spec.substring x start len) :: r } ∧
-    runBuiltin (f+1) .substring { s with stack := [] } = emptyStack ∧
-    runBuiltin (f+1) .substring { s with stack := [.int len] } = emptyStack ∧
-    runBuiltin (f+1) .substring { s with stack := [.int len, .int start] } = emptyStack ∧
-    (∀ w, isInt w = false → ∃ e, runBuiltin (f+1) .substring { s with stack := w :: r } = .error (.internal e)) ∧
-    (∀ w, isInt w = false → ∃ e, runBuiltin (f+1) .substring { s with stack := .int len :: w :: r } = .error (.internal e)) ∧
-    (∀ w, isStr w = false → ∃ e, runBuiltin (f+1) .substring { s with stack := .int len :: .int start :: w :: r } = .error (.internal e)) := by
-  refine ⟨?_, rfl, rfl, rfl, ?_, ?_, ?_⟩
-  · rw [← C12_substring_spec]
-    rcases valToStr_cases hx with rfl | ⟨m, rfl, rfl⟩ <;> rfl
-  · ill1
-  · ill1
-  · ill1
+    (∀ vs : List Val, vs.length < 3 → runBuiltin (f+1) .substring { s with stack := vs } = emptyStack) ∧
+    (∀ l w y, isInt w = false → ∃ e, runBuiltin (f+1) .substring { s with stack := l :: w :: y :: r } = .error (.internal e)) ∧
+    (∀ l y, runBuiltin (f+1) .substring { s with stack := l :: .int 0 :: y :: r } = .ok { s with stack := .str [] :: r }) ∧
+    (∀ l y, start ≠ 0 → isInt l = false ∨ isStr y = false →
+      ∃ e, runBuiltin (f+1) .substring { s with stack := l :: .int start :: y :: r } = .error (.internal e)) := by
+  have step : ∀ l y, runBuiltin (f+1) .substring { s with stack := l :: .int start :: y :: r } =
+      if start = 0 then .ok { s with stack := .str [] :: r }
+      else match l, valToStr y with
+        | .int len, some x => .ok { s with stack := .str (bibtexSubstring x start len) :: r }
+        | _, _ => .error (.internal "TypeError: bibtex_substring") := fun _ _ => rfl
+  refine ⟨?_, fun vs h => C03_builtin_short_stack f s .substring vs h, ?_, fun _ _ => rfl, ?_⟩
+  · rw [step]
+    by_cases h0 : start = 0
+    · rw [if_pos h0, h0]
+      have : Spec.substring x 0 len = [] := by simp [Spec.substring]
+      rw [this]
+    · rw [if_neg h0, hx, ← C12_substring_spec]
+  · intro l w y hw
+    cases w <;> first | exact ⟨_, rfl⟩ | cases hw
+  · intro l y h0 h
+    rw [step, if_neg h0]
+    rcases h with h | h
+    · cases l with
+      | int k => cases h
+      | _ => cases valToStr y <;> exact ⟨_, rfl⟩
+    · rw [valToStr_none h]
+      cases l <;> exact ⟨_, rfl⟩
 
 /-- `s text.length$` ↦ `bibtexLen s` (C12: braces not counted, a special character counts one) -/
 theorem C03_builtin_text_length (f : Nat) (s : St) (v : Val) (x : Str) (r : List Val) (hx : valToStr v = some x) :
@@ -398,28 +487,39 @@ theorem C03_builtin_text_length (f : Nat) (s : St) (v : Val) (x : Str) (r : List
     · exact key []
   · ill1
 
-/-- `s n text.prefix$` ↦ `bibtexPrefix s n` (C12) -/
+/-- `s n text.prefix$` ↦ `bibtexPrefix s n` (C12).  Ill-typed (two operands present): a
+non-integer `n` is a `TypeError`; `n ≤ 0` gives the empty string whatever `s` is (nothing is read
+from it); for `n > 0` a non-string `s` is a `TypeError`. -/
 theorem C03_builtin_text_prefix (f : Nat) (s : St) (v : Val) (x : Str) (n : Int) (r : List Val)
     (hx : valToStr v = some x) :
     runBuiltin (f+1) .textPrefix { s with stack := .int n :: v :: r } =
       (match bibtexPrefix x n with
        | some p => .ok { s with stack := .str p :: r }
        | none => .error (.bibtex "too many nested braces")) ∧
-    runBuiltin (f+1) .textPrefix { s with stack := [] } = emptyStack ∧
-    runBuiltin (f+1) .textPrefix { s with stack := [.int n] } = emptyStack ∧
-    (∀ w, isInt w = false → ∃ e, runBuiltin (f+1) .textPrefix { s with stack := w :: r } = .error (.internal e)) ∧
-    (∀ w, isStr w = false → ∃ e, runBuiltin (f+1) .textPrefix { s with stack := .int n :: w :: r } = .error (.internal e)) := by
-  refine ⟨?_, rfl, rfl, ?_, ?_⟩
-  · have key : ∀ y : Str, runBuiltin (f+1) .textPrefix { s with stack := .int n :: .str y :: r } =
-        (match bibtexPrefix y n with | some n => .ok { s with stack := .str n :: r } | none => .error (.bibtex "too many nested braces")) := by
-      intro y
-      show (match bibtexPrefix y n with | none => _ | some n => _) = _
-      cases bibtexPrefix y n <;> rfl
-    rcases valToStr_cases hx with rfl | ⟨m, rfl, rfl⟩
-    · exact key x
-    · exact key []
-  · ill1
-  · ill1
+    (∀ vs : List Val, vs.length < 2 → runBuiltin (f+1) .textPrefix { s with stack := vs } = emptyStack) ∧
+    (∀ w y, isInt w = false → ∃ e, runBuiltin (f+1) .textPrefix { s with stack := w :: y :: r } = .error (.internal e)) ∧
+    (∀ y, n ≤ 0 → runBuiltin (f+1) .textPrefix { s with stack := .int n :: y :: r } = .ok { s with stack := .str [] :: r }) ∧
+    (∀ y, 0 < n → isStr y = false → ∃ e, runBuiltin (f+1) .textPrefix { s with stack := .int n :: y :: r } = .error (.internal e)) := by
+  have step : ∀ y, runBuiltin (f+1) .textPrefix { s with stack := .int n :: y :: r } =
+      if n ≤ 0 then .ok { s with stack := .str [] :: r }
+      else match valToStr y with
+        | none => .error (.internal "TypeError: bibtex_prefix of a non-string")
+        | some x =>
+          match bibtexPrefix x n with
+          | none => .error tooDeep
+          | some p => .ok { s with stack := .str p :: r } := fun _ => rfl
+  refine ⟨?_, fun vs h => C03_builtin_short_stack f s .textPrefix vs h, ?_, ?_, ?_⟩
+  · rw [step, hx]
+    by_cases hn : n ≤ 0
+    · rw [if_pos hn, C12_prefix_nonpos x n hn]
+    · rw [if_neg hn]
+      show (match bibtexPrefix x n with | none => _ | some p => _) = _
+      cases bibtexPrefix x n <;> rfl
+  · intro w y hw
+    cases w <;> first | exact ⟨_, rfl⟩ | cases hw
+  · intro y hn; rw [step, if_pos hn]
+  · intro y hn hy
+    rw [step, if_neg (by omega), valToStr_none hy]; exact ⟨_, rfl⟩
 
 /-- corollary with C12: for `n ≥ 0` the pushed prefix has text length `min n (text length of s)`,
 and for `n ≤ 0` it is empty -/
@@ -487,7 +587,10 @@ theorem C03_builtin_purify_spec (f : Nat) (s s' : St) (x : Str) (r : List Val)
     exact ⟨p, by cases h; rfl, C12_purify_range x p hp, C12_purify_idem x p hp⟩
 
 /-- `s mode change.case$`: the conversion is selected by the first character of `mode`,
-lower-cased (`t`, `l`, `u`); an empty mode and any other letter are `BibTeXError`s -/
+lower-cased (`t`, `l`, `u`); an empty mode and any other letter are `BibTeXError`s.  Ill-typed
+(two operands present): the mode `0` is "empty" (`not mode`), any other integer, a function or a
+variable as mode is a `TypeError`; with a valid mode a non-string `s` is a `TypeError` — the mode
+is checked first. -/
 theorem C03_builtin_change_case (f : Nat) (s : St) (vm vx : Val) (x : Str) (r : List Val)
     (hx : valToStr vx = some x) :
     (∀ c m md, valToStr vm = some (c :: m) → caseModeOf (lowerC c) = some md →
@@ -495,41 +598,53 @@ theorem C03_builtin_change_case (f : Nat) (s : St) (vm vx : Val) (x : Str) (r : 
         (match changeCase x md with
          | some y => .ok { s with stack := .str y :: r }
          | none => .error (.bibtex "too many nested braces"))) ∧
-    (∀ c m, valToStr vm = some (c :: m) → caseModeOf (lowerC c) = none →
-      runBuiltin (f+1) .changeCase { s with stack := vm :: vx :: r } = .error (.bibtex "incorrect change.case$ mode")) ∧
-    (valToStr vm = some [] →
-      runBuiltin (f+1) .changeCase { s with stack := vm :: vx :: r } = .error (.bibtex "empty mode string passed to change.case$")) ∧
-    runBuiltin (f+1) .changeCase { s with stack := [] } = emptyStack ∧
-    (isStr vm = true → runBuiltin (f+1) .changeCase { s with stack := [vm] } = emptyStack) ∧
-    (∀ w, isStr w = false → ∃ e, runBuiltin (f+1) .changeCase { s with stack := w :: r } = .error (.internal e)) ∧
-    (isStr vm = true → ∀ w, isStr w = false → ∃ e, runBuiltin (f+1) .changeCase { s with stack := vm :: w :: r } = .error (.internal e)) := by
-  have step : ∀ mode : Str, valToStr vm = some mode →
-      runBuiltin (f+1) .changeCase { s with stack := vm :: vx :: r } =
-        (match mode with
-          | [] => .error (.bibtex "empty mode string passed to change.case$")
-          | c :: _ =>
-            match caseModeOf (lowerC c) with
-            | none => .error (.bibtex "incorrect change.case$ mode")
-            | some m =>
-              match changeCase x m with
+    (∀ c m w, valToStr vm = some (c :: m) → caseModeOf (lowerC c) = none →
+      runBuiltin (f+1) .changeCase { s with stack := vm :: w :: r } = .error (.bibtex "incorrect change.case$ mode")) ∧
+    (∀ w, valToStr vm = some [] ∨ vm = .int 0 →
+      runBuiltin (f+1) .changeCase { s with stack := vm :: w :: r } = .error (.bibtex "empty mode string passed to change.case$")) ∧
+    (∀ vs : List Val, vs.length < 2 → runBuiltin (f+1) .changeCase { s with stack := vs } = emptyStack) ∧
+    (∀ w n, n ≠ 0 → ∃ e, runBuiltin (f+1) .changeCase { s with stack := .int n :: w :: r } = .error (.internal e)) ∧
+    (∀ v w, isExec v = true → ∃ e, runBuiltin (f+1) .changeCase { s with stack := v :: w :: r } = .error (.internal e)) ∧
+    (∀ c m md w, valToStr vm = some (c :: m) → caseModeOf (lowerC c) = some md → isStr w = false →
+      ∃ e, runBuiltin (f+1) .changeCase { s with stack := vm :: w :: r } = .error (.internal e)) := by
+  have step : ∀ (c : Char) (m : Str) (w : Val),
+      runBuiltin (f+1) .changeCase { s with stack := .str (c :: m) :: w :: r } =
+        (match caseModeOf (lowerC c) with
+          | none => .error (.bibtex "incorrect change.case$ mode")
+          | some md =>
+            match valToStr w with
+            | none => .error (.internal "TypeError: change_case of a non-string")
+            | some x =>
+              match changeCase x md with
               | none => .error tooDeep
-              | some y => .ok { s with stack := .str y :: r }) := by
-    intro mode hm
-    rcases valToStr_cases hm with rfl | ⟨mm, rfl, rfl⟩ <;> rcases valToStr_cases hx with rfl | ⟨mx, rfl, rfl⟩ <;> rfl
-  refine ⟨?_, ?_, ?_, rfl, ?_, ?_, ?_⟩
+              | some y => .ok { s with stack := .str y :: r }) := fun _ _ _ => rfl
+  have hstr : ∀ c m, valToStr vm = some (c :: m) → vm = .str (c :: m) := by
+    intro c m h
+    rcases valToStr_cases h with rfl | ⟨_, _, h0⟩
+    · rfl
+    · cases h0
+  refine ⟨?_, ?_, ?_, fun vs h => C03_builtin_short_stack f s .changeCase vs h, ?_, ?_, ?_⟩
   · intro c m md hm hmd
-    rw [step _ hm]; simp only [hmd]
+    rw [hstr c m hm, step, hx]; simp only [hmd]
+    show (match changeCase x md with | none => _ | some y => _) = _
     cases changeCase x md <;> rfl
-  · intro c m hm hmd
-    rw [step _ hm]; simp only [hmd]
-  · intro hm; rw [step _ hm]
-  · intro h; cases vm <;> first | rfl | cases h
-  · ill1
-  · intro _ w hw; cases vm <;> cases w <;> first | exact ⟨_, rfl⟩ | cases hw
+  · intro c m w hm hmd
+    rw [hstr c m hm, step]; simp only [hmd]
+  · rintro w (hm | rfl)
+    · rcases valToStr_cases hm with rfl | ⟨mm, rfl, _⟩ <;> rfl
+    · rfl
+  · intro w n hn
+    show ∃ e, (if n = 0 then _ else _) = _
+    rw [if_neg hn]; exact ⟨_, rfl⟩
+  · ill2
+  · intro c m md w hm hmd hw
+    rw [hstr c m hm, step]; simp only [hmd, valToStr_none hw]; exact ⟨_, rfl⟩
 
 /-- `add.period$` appends a period unless the string is empty or its last character other than a
 closing brace is `.`, `?` or `!`; a string of closing braces only gets the period (as in
-BibTeX); a missing field stays a missing field.  The three shapes cover every string. -/
+BibTeX); a missing field stays a missing field.  The three shapes cover every string.
+Ill-typed: the integer 0 is falsy in Python and is pushed back; every other non-string is an
+`AttributeError`. -/
 theorem C03_builtin_add_period (f : Nat) (s : St) (r : List Val) :
     (∀ x, runBuiltin (f+1) .addPeriod { s with stack := .str x :: r } = .ok { s with stack := .str (addPeriod x) :: r }) ∧
     (∀ m, runBuiltin (f+1) .addPeriod { s with stack := .missing m :: r } = .ok { s with stack := .missing m :: r }) ∧
@@ -538,13 +653,28 @@ theorem C03_builtin_add_period (f : Nat) (s : St) (r : List Val) :
       if EndsSentence c then core ++ c :: List.replicate k '}' else core ++ c :: List.replicate k '}' ++ ['.']) ∧
     (∀ k, addPeriod (List.replicate (k + 1) '}') = List.replicate (k + 1) '}' ++ ['.']) ∧
     runBuiltin (f+1) .addPeriod { s with stack := [] } = emptyStack ∧
-    (∀ v, isStr v = false → ∃ e, runBuiltin (f+1) .addPeriod { s with stack := v :: r } = .error (.internal e)) := by
-  refine ⟨fun _ => rfl, fun _ => rfl, rfl, addPeriod_core, addPeriod_braces, rfl, ?_⟩
-  ill1
+    runBuiltin (f+1) .addPeriod { s with stack := .int 0 :: r } = .ok { s with stack := .int 0 :: r } ∧
+    (∀ v, isStr v = false → v ≠ .int 0 → ∃ e, runBuiltin (f+1) .addPeriod { s with stack := v :: r } = .error (.internal e)) := by
+  refine ⟨fun _ => rfl, fun _ => rfl, rfl, addPeriod_core, addPeriod_braces, rfl, rfl, ?_⟩
+  intro v hv h0
+  cases v with
+  | int n =>
+    match n, h0 with
+    | .ofNat 0, h0 => exact absurd rfl h0
+    | .ofNat (k+1), _ => exact ⟨_, rfl⟩
+    | .negSucc k, _ => exact ⟨_, rfl⟩
+  | str x => cases hv
+  | missing m => cases hv
+  | fn b => exact ⟨_, rfl⟩
+  | ref n => exact ⟨_, rfl⟩
 
 /-- `names n fmt format.name$`: the `n`-th (from 1) name of the " and "-separated list, formatted
 by `formatName` (C11); a name number outside `1 .. count` gives a warning and the empty string;
-a malformed format string is a (fatal) syntax error; a name with too many commas is reported. -/
+a malformed format string is a (fatal) syntax error; a name with too many commas is reported.
+Ill-typed (three operands present): a non-integer `n` is a `TypeError`; for `n < 1` the warning
+is issued before `names` and `fmt` are used (an integer `names` is printed in decimal; the `repr`
+of an object is not modelled); for `n ≥ 1` a non-string `names` is an error; for `n` beyond the
+count the format is not used; otherwise a non-string format is a `TypeError`. -/
 theorem C03_builtin_format_name (f : Nat) (s : St) (vn vf : Val) (names fmt : Str) (n : Int) (r : List Val)
     (hn : valToStr vn = some names) (hf : valToStr vf = some fmt) :
     (∀ name out tooMany, 1 ≤ n → (splitNameList names)[(n - 1).toNat]? = some name →
@@ -554,52 +684,94 @@ theorem C03_builtin_format_name (f : Nat) (s : St) (vn vf : Val) (names fmt : St
                      reports := if tooMany then s.reports ++ [.invalidName (strip name)] else s.reports }) ∧
     (∀ name e, 1 ≤ n → (splitNameList names)[(n - 1).toNat]? = some name → formatName name fmt = .error e →
       runBuiltin (f+1) .formatName { s with stack := vf :: .int n :: vn :: r } = .error (fmtErrToIErr e)) ∧
-    (n < 1 ∨ n > (splitNameList names).length →
-      runBuiltin (f+1) .formatName { s with stack := vf :: .int n :: vn :: r } =
+    (∀ w, n < 1 ∨ n > (splitNameList names).length →
+      runBuiltin (f+1) .formatName { s with stack := w :: .int n :: vn :: r } =
         .ok { s with stack := .str [] :: r,
                      reports := s.reports ++ [.warning ("there is no name number ".toList ++ (toString n).toList ++
                         " in \"".toList ++ names ++ "\"".toList)] }) ∧
-    runBuiltin (f+1) .formatName { s with stack := [] } = emptyStack ∧
-    runBuiltin (f+1) .formatName { s with stack := [vf] } = emptyStack ∧
-    runBuiltin (f+1) .formatName { s with stack := [vf, .int n] } = emptyStack ∧
-    (∀ w, isStr w = false → ∃ e, runBuiltin (f+1) .formatName { s with stack := w :: r } = .error (.internal e)) ∧
-    (∀ w, isInt w = false → ∃ e, runBuiltin (f+1) .formatName { s with stack := vf :: w :: r } = .error (.internal e)) ∧
-    (∀ w, isStr w = false → ∃ e, runBuiltin (f+1) .formatName { s with stack := vf :: .int n :: w :: r } = .error (.internal e)) := by
-  have step : runBuiltin (f+1) .formatName { s with stack := vf :: .int n :: vn :: r } =
-      (if n < 1 ∨ n > (splitNameList names).length then
+    (∀ vs : List Val, vs.length < 3 → runBuiltin (f+1) .formatName { s with stack := vs } = emptyStack) ∧
+    (∀ w v y, isInt v = false → ∃ e, runBuiltin (f+1) .formatName { s with stack := w :: v :: y :: r } = .error (.internal e)) ∧
+    (∀ w (k : Int), n < 1 → runBuiltin (f+1) .formatName { s with stack := w :: .int n :: .int k :: r } =
+        .ok { s with stack := .str [] :: r,
+                     reports := s.reports ++ [.warning ("there is no name number ".toList ++ (toString n).toList ++
+                        " in \"".toList ++ (toString k).toList ++ "\"".toList)] }) ∧
+    (∀ w y, isStr y = false → (1 ≤ n ∨ isExec y = true) →
+      ∃ e, runBuiltin (f+1) .formatName { s with stack := w :: .int n :: y :: r } = .error (.internal e)) ∧
+    (∀ w, 1 ≤ n → n ≤ (splitNameList names).length → isStr w = false →
+      ∃ e, runBuiltin (f+1) .formatName { s with stack := w :: .int n :: vn :: r } = .error (.internal e)) := by
+  have step : ∀ w, runBuiltin (f+1) .formatName { s with stack := w :: .int n :: vn :: r } =
+      (if n < 1 then
+        .ok (push (warn { s with stack := r } ("there is no name number ".toList ++ intToStr n ++ " in \"".toList ++ names ++ "\"".toList)) (.str []))
+      else if n > (splitNameList names).length then
         .ok (push (warn { s with stack := r } ("there is no name number ".toList ++ intToStr n ++ " in \"".toList ++ names ++ "\"".toList)) (.str []))
       else
-        match pyIndex (splitNameList names) (n - 1) with
-        | none => .error (.internal "IndexError: format.name$")
-        | some name =>
-          match formatName name fmt with
-          | .error e => .error (fmtErrToIErr e)
-          | .ok (out, tooMany) =>
-            .ok (push (if tooMany then { s with stack := r, reports := s.reports ++ [.invalidName (strip name)] } else { s with stack := r }) (.str out))) := by
-    rcases valToStr_cases hn with rfl | ⟨mn, rfl, rfl⟩ <;> rcases valToStr_cases hf with rfl | ⟨mf, rfl, rfl⟩ <;> rfl
+        match valToStr w with
+        | none => .error (.internal "TypeError: format_name with a non-string format")
+        | some fmt =>
+          match pyIndex (splitNameList names) (n - 1) with
+          | none => .error (.internal "IndexError: format.name$")
+          | some name =>
+            match formatName name fmt with
+            | .error e => .error (fmtErrToIErr e)
+            | .ok (out, tooMany) =>
+              .ok (push (if tooMany then { s with stack := r, reports := s.reports ++ [.invalidName (strip name)] } else { s with stack := r }) (.str out))) := by
+    intro w
+    rcases valToStr_cases hn with rfl | ⟨mn, rfl, rfl⟩
+    · rfl
+    · show (if n < 1 then _ else _) = _
+      by_cases h1 : n < 1
+      · rw [if_pos h1, if_pos h1, List.append_nil]
+      · rw [if_neg h1, if_neg h1]; rfl
   have hlen : ∀ name, 1 ≤ n → (splitNameList names)[(n - 1).toNat]? = some name →
-      ¬ (n < 1 ∨ n > (splitNameList names).length) ∧ pyIndex (splitNameList names) (n - 1) = some name := by
+      ¬ n < 1 ∧ ¬ n > (splitNameList names).length ∧ pyIndex (splitNameList names) (n - 1) = some name := by
     intro name h1 hnm
     have hlt : (n - 1).toNat < (splitNameList names).length := by
       rcases Nat.lt_or_ge (n - 1).toNat (splitNameList names).length with h | h
       · exact h
       · rw [List.getElem?_eq_none h] at hnm; cases hnm
     have h2 : n ≤ (splitNameList names).length := by omega
-    exact ⟨by omega, by rw [pyIndex_pos _ _ h1 h2, hnm]⟩
-  refine ⟨?_, ?_, ?_, rfl, ?_, ?_, ?_, ?_, ?_⟩
+    exact ⟨by omega, by omega, by rw [pyIndex_pos _ _ h1 h2, hnm]⟩
+  refine ⟨?_, ?_, ?_, fun vs h => C03_builtin_short_stack f s .formatName vs h, ?_, ?_, ?_, ?_⟩
   · intro name out tooMany h1 hnm hfm
-    obtain ⟨hr, hp⟩ := hlen name h1 hnm
-    rw [step, if_neg hr, hp]; simp only [hfm]
+    obtain ⟨hr1, hr2, hp⟩ := hlen name h1 hnm
+    rw [step, if_neg hr1, if_neg hr2, hf]; simp only [hp, hfm]
     cases tooMany <;> rfl
   · intro name e h1 hnm hfm
-    obtain ⟨hr, hp⟩ := hlen name h1 hnm
-    rw [step, if_neg hr, hp]; simp only [hfm]
-  · intro h; rw [step, if_pos h]; rfl
-  · rcases valToStr_cases hf with rfl | ⟨mf, rfl, rfl⟩ <;> rfl
-  · rcases valToStr_cases hf with rfl | ⟨mf, rfl, rfl⟩ <;> rfl
-  · ill1
-  · rcases valToStr_cases hf with rfl | ⟨mf, rfl, rfl⟩ <;> ill1
-  · rcases valToStr_cases hf with rfl | ⟨mf, rfl, rfl⟩ <;> ill1
+    obtain ⟨hr1, hr2, hp⟩ := hlen name h1 hnm
+    rw [step, if_neg hr1, if_neg hr2, hf]; simp only [hp, hfm]
+  · intro w h
+    rw [step]
+    by_cases h1 : n < 1
+    · rw [if_pos h1]; rfl
+    · rw [if_neg h1, if_pos (by omega)]; rfl
+  · intro w v y hv
+    cases v <;> first | exact ⟨_, rfl⟩ | cases hv
+  · intro w k h1
+    show (if n < 1 then _ else _) = _
+    rw [if_pos h1]; rfl
+  · intro w y hy h
+    cases y with
+    | str x => cases hy
+    | missing m => cases hy
+    | int k =>
+      have h1 : ¬ n < 1 := by
+        rcases h with h | h
+        · omega
+        · cases h
+      show ∃ e, (if n < 1 then _ else _) = _
+      rw [if_neg h1]; exact ⟨_, rfl⟩
+    | fn b =>
+      show ∃ e, (if n < 1 then _ else _) = _
+      by_cases h1 : n < 1
+      · rw [if_pos h1]; exact ⟨_, rfl⟩
+      · rw [if_neg h1]; exact ⟨_, rfl⟩
+    | ref m =>
+      show ∃ e, (if n < 1 then _ else _) = _
+      by_cases h1 : n < 1
+      · rw [if_pos h1]; exact ⟨_, rfl⟩
+      · rw [if_neg h1]; exact ⟨_, rfl⟩
+  · intro w h1 h2 hw
+    rw [step, if_neg (by omega), if_neg (by omega), valToStr_none hw]; exact ⟨_, rfl⟩
 
 /-- `call.type$` executes the function named like the type of the current entry; for a type the
 style does not define it reports `entry type for "<key>" isn't style-file defined` and executes
@@ -628,12 +800,10 @@ on the stack below the three operands -/
 theorem C03_if (f : Nat) (s : St) (p : Int) (f1 f2 : Val) (r : List Val) :
     runBuiltin (f+1) .if_ { s with stack := f1 :: f2 :: .int p :: r } =
       execVal f (if p > 0 then f2 else f1) { s with stack := r } ∧
-    runBuiltin (f+1) .if_ { s with stack := [] } = emptyStack ∧
-    runBuiltin (f+1) .if_ { s with stack := [f1] } = emptyStack ∧
-    runBuiltin (f+1) .if_ { s with stack := [f1, f2] } = emptyStack ∧
+    (∀ vs : List Val, vs.length < 3 → runBuiltin (f+1) .if_ { s with stack := vs } = emptyStack) ∧
     (∀ v, isInt v = false → ∃ e, runBuiltin (f+1) .if_ { s with stack := f1 :: f2 :: v :: r } = .error (.internal e)) ∧
     (∀ v, isExec v = false → ∃ e, execVal (f+1) v s = .error (.internal e)) := by
-  refine ⟨?_, rfl, rfl, rfl, ?_, ?_⟩
+  refine ⟨?_, fun vs h => C03_builtin_short_stack f s .if_ vs h, ?_, ?_⟩
   · show (if p > 0 then execVal f f2 _ else execVal f f1 _) = _
     by_cases h : p > 0 <;> simp only [h, if_true, if_false]
   · ill1
@@ -668,7 +838,7 @@ theorem C03_builtin_change_case_spec (f : Nat) (s s' : St) (x m : Str) (c : Char
       lower y = lower x ∧ y.length = x.length := by
   have h0 := C03_builtin_change_case f s (.str (c :: m)) (.str x) x r rfl
   cases hmd : caseModeOf (lowerC c) with
-  | none => rw [h0.2.1 c m rfl hmd] at h; cases h
+  | none => rw [h0.2.1 c m (.str x) rfl hmd] at h; cases h
   | some md =>
     rw [h0.1 c m md rfl hmd] at h
     cases hy : changeCase x md with
@@ -827,9 +997,9 @@ theorem C03_while_unfold (p f : Val) :
     (∀ s s', EvalWhile p f s s' ↔
       ∃ s1 k s2, EvalVal p s s1 ∧ popInt s1 = .ok (k, s2) ∧
         ((k ≤ 0 ∧ s' = s2) ∨ (0 < k ∧ ∃ s3, EvalVal f s2 s3 ∧ EvalWhile p f s3 s'))) ∧
-    (∀ n (s : St), runBuiltin (n+1) .while_ { s with stack := [] } = emptyStack ∧
-            runBuiltin (n+1) .while_ { s with stack := [f] } = emptyStack) :=
-  ⟨fun _ _ _ => rfl, fun _ _ => rfl, evalBuiltin_while p f, evalWhile_unfold p f, fun _ _ => ⟨rfl, rfl⟩⟩
+    (∀ n (s : St) (vs : List Val), vs.length < 2 → runBuiltin (n+1) .while_ { s with stack := vs } = emptyStack) :=
+  ⟨fun _ _ _ => rfl, fun _ _ => rfl, evalBuiltin_while p f, evalWhile_unfold p f,
+   fun n s vs h => C03_builtin_short_stack n s .while_ vs h⟩
 
 /-! ## 3. Literals, variables, `ITERATE` and `REVERSE` -/
 
